@@ -509,7 +509,7 @@ def lattice_for(fi, i, rng):
 
 
 # ------------------------------------------------------------------ dependency probes (cover events)
-def random_peps(dims, seed, sym='dense'):
+def random_peps(dims, seed, sym='dense', bonds=None):
     """ generic PEPS: complex random tensors, bond dimension 2 on every bond of the lattice """
     import yastn
     import yastn.tn.fpeps as fpeps
@@ -518,7 +518,7 @@ def random_peps(dims, seed, sym='dense'):
     g = fpeps.SquareLattice(dims=dims, boundary='obc')
     psi = fpeps.Peps(g)
     for s in g.sites():
-        D = [2 if g.nn_site(s, d) is not None else 1 for d in 'tlbr']
+        D = [2 if g.nn_site(s, d) is not None and (bonds is None or frozenset((tuple(s), tuple(g.nn_site(s, d)))) in bonds) else 1 for d in 'tlbr']
         legs = [yastn.Leg(cfg, s=sg, D=(d,)) for sg, d in zip((-1, 1, 1, -1), D)] + [yastn.Leg(cfg, s=1, D=(2,))]
         psi[s] = yastn.rand(cfg, legs=legs, dtype='complex128')
     return cfg, g, psi
@@ -586,6 +586,32 @@ def cover_inner(args):
                 if float(d.norm()) > 1e-9 * float(M.norm()):
                     deps.append(list(q))
             out.append({'op': 'cover', 'what': '%s boundary (%d, %s) opts_var=%s' % (tag, n, dn, ov), 'model': 'bm', 'dims': [Nx, Ny], 'n': int(n), 'dn': dn, 'deps': deps})
+    elif model == 'bp':
+        # entanglement on a random forest (bond dimension 2 there, 1 elsewhere); messages after k = 1.. sweeps of update_ in the order the code performs the single updates
+        forest = spanning_forest(g, rng)
+        forest = [b for b in forest if rng.random() < 0.85] or forest[:1]
+        Eset = {frozenset(b) for b in forest}
+        cfg, g, psi = random_peps(dims, seed, bonds=Eset)
+        variants = {q: perturbed(cfg, psi, fpeps.Site(*q)) for q in sites}
+        probe = fpeps.EnvBP(psi)
+        seq = [(tuple(b.site0), tuple(b.site1)) for b in probe.bonds('h')] + [(tuple(b.site1), tuple(b.site0)) for b in probe.bonds('h')[::-1]] \
+            + [(tuple(b.site0), tuple(b.site1)) for b in probe.bonds('v')] + [(tuple(b.site1), tuple(b.site0)) for b in probe.bonds('v')[::-1]]
+        kmax = 3
+
+        def msgs(p):
+            e = fpeps.EnvBP(p)
+            res = []
+            for _ in range(kmax):
+                e.update_()
+                res.append({(s, dn): getattr(e[fpeps.Site(*s)], dn + 'R') for s in sites for dn in 'tlbr'})
+            return res
+        base = msgs(psi)
+        pert = {q: msgs(variants[q]) for q in sites}
+        for k in range(1, kmax + 1):
+            for (s, dn), M in base[k - 1].items():
+                deps = [list(q) for q in sites if differs(M, pert[q][k - 1][(s, dn)])]
+                out.append({'op': 'cover', 'what': '%s k=%d message %s of %s forest=%s' % (tag, k, dn, s, sorted(tuple(sorted(b)) for b in Eset)), 'model': 'bp', 'dims': [Nx, Ny], 'k': k,
+                            'E': [[list(a), list(b)] for a, b in forest], 'seq': [[list(a), list(b)] for a, b in seq], 'site': list(s), 'dn': dn, 'deps': deps})
     else:   # ntu
         bonds = list(g.bonds())
         if sub:
@@ -645,6 +671,8 @@ def main(tier, seed, replay=None):
                        'evolution_step_ with non-binding truncation; dependency probes; non-trivial = measure event with a non-zero expected numerator, metric event, evolve event, cover event')
     r = tlc_ok('EnvCoverMC', 'EnvCoverMC.cfg', workers=4, timeout=900)
     rep.add_tlc('EnvCoverMC (coverage of CTM / boundary-MPS / NTU objects, lattices up to 4x4, 5 expansions)', r)
+    r = tlc_ok('BpCoverMC', 'BpCoverMC.cfg' if tier == 'quick' else 'BpCoverMC_forest.cfg', workers=8, timeout=2400, mem='6g')
+    rep.add_tlc('BpCoverMC (belief-propagation messages in any order of single updates: %s)' % ('every entanglement graph of 1x3 and 2x2, cycles included' if tier == 'quick' else 'every forest of 1x4, 2x3, 3x2'), r)
     r = tlc_ok('FockMC', 'FockMC.cfg', workers=4, timeout=600)
     rep.add_tlc('FockMC (CAR on all basis states, 4 modes)', r)
     nF = len(pepsx.FAMILIES)
@@ -658,10 +686,12 @@ def main(tier, seed, replay=None):
         jobs = [(i % nF, lattice_for(i % nF, i // nF + seed, jr), seed * 1000003 + i, tier) for i in range(n)]
         jobs += [(i % nF, d, seed * 1000003 + 5000 + i, tier) for i, d in enumerate([(3, 4), (4, 3)] if tier == 'quick' else [(3, 4), (4, 3), (4, 4), (3, 5), (5, 3), (2, 5)] * 4)]
         if tier == 'quick':
-            cjobs = [((2, 3), 'ctm', seed, 0), ((3, 3), 'ctm', seed + 1, 0), ((3, 2), 'bm', seed, 0), ((3, 3), 'bm', seed + 1, 0), ((3, 3), 'ntu', seed, 4), ((2, 4), 'ntu', seed + 1, 3), ((4, 4), 'ntu', seed + 2, 2)]
+            cjobs = [((2, 3), 'ctm', seed, 0), ((3, 3), 'ctm', seed + 1, 0), ((3, 2), 'bm', seed, 0), ((3, 3), 'bm', seed + 1, 0), ((3, 3), 'ntu', seed, 4), ((2, 4), 'ntu', seed + 1, 3), ((4, 4), 'ntu', seed + 2, 2),
+                     ((2, 3), 'bp', seed, 0), ((3, 3), 'bp', seed + 1, 0), ((1, 4), 'bp', seed + 2, 0)]
         else:
             cjobs = [(d, 'ctm', seed + i, 0) for i, d in enumerate(LATTICES + [(3, 4), (4, 4)])] + [(d, 'bm', seed + i, 0) for i, d in enumerate(LATTICES + [(3, 4), (4, 4)])] \
-                + [(d, 'ntu', seed + i, 0) for i, d in enumerate([(2, 2), (2, 3), (3, 2), (3, 3), (2, 4), (4, 2), (1, 4), (4, 1), (3, 4), (4, 3), (4, 4), (4, 5), (5, 4)])]
+                + [(d, 'ntu', seed + i, 0) for i, d in enumerate([(2, 2), (2, 3), (3, 2), (3, 3), (2, 4), (4, 2), (1, 4), (4, 1), (3, 4), (4, 3), (4, 4), (4, 5), (5, 4)])] \
+                + [(d, 'bp', seed + 7 * i + j, 0) for i, d in enumerate(LATTICES + [(3, 4), (4, 4)]) for j in range(3)]
     with ProcessPoolExecutor(max_workers=15) as ex:
         fut = [ex.submit(cover_run, j) for j in cjobs]
         results = list(ex.map(run, jobs, chunksize=1))
